@@ -106,6 +106,7 @@ inductive CatchUp where
   | push (ts : Nat) (line : Bytes)            -- `self.data.push_data(ts, line)` of `process`
   | outTs (ts : Nat)                          -- `timestamps.push(ts)` of the resampling read
   | outItem (v : Nat)                         -- `data.push(item)` of the resampling read
+  | cache (ts : Nat) (line : Bytes)           -- `downsampled.process(ts, line)` of `push_line`, per cache level
 deriving Repr, DecidableEq
 
 /-- the cache as `add_missing_data` sees it -/
@@ -116,6 +117,11 @@ structure CacheView where
   samples_in_bin : Nat := 0
   ts_sum : Nat := 0                 -- u128
   resample_state : Nat := 0         -- the library's u64 `ResampleState` (harness resampler `Lin`)
+
+/-- what `push_line` touches of a `ByteSeries` -/
+structure SeriesView where
+  data : DataView
+  range : Option (Nat × Nat)
 
 /-- the part of `Index` the translated functions read -/
 structure Index where
